@@ -990,6 +990,52 @@ def histogram(x, bins, weights=None, **k):
     return hist, Bn
 
 
+def bincount(x, weights=None, minlength=0):
+    """ASSUMED: x non-negative ints (ValueError otherwise); out has length max(minlength, max(x)+1) and
+    out[b] = Σ_t w_t [x_t == b]  (w_t = 1 without weights)."""
+    if not anysym(x, weights, minlength):
+        return _np.bincount(x, weights=weights, minlength=minlength)
+    ctx = Ctx.cur
+    X = _arr(x)
+    if X.kind != "i" or X.ndim != 1:
+        raise TypeError("Cannot cast array data from dtype('float64') to dtype('int64') according to the rule 'safe'")
+    W = _arr(weights) if weights is not None else None
+    if W is not None:
+        same_dim(W.shape[0], X.shape[0], "The weights and list don't have the same length.")
+    if X.mask_of is not None:
+        base, mask, sel, inv = X.mask_of
+        if W is not None:
+            if W.mask_of is None or W.mask_of[1] is not mask:
+                raise Unsupported("bincount: weights and values selected by different masks")
+            wbase = W.mask_of[0]
+        n, xe, me = base.shape[0], base._elem, mask._elem
+        we = wbase._elem if W is not None else None
+        live = lambda t: me(t)  # noqa: E731
+    else:
+        n, xe = X.shape[0], X._elem
+        we = W._elem if W is not None else None
+        live = lambda t: z3.BoolVal(True)  # noqa: E731
+    t = bv("t")
+    neg = z3.Exists([t], z3.And(in_range(t, n), live(t), xe(t) < 0))
+    if ctx.branch(neg):
+        raise ValueError("'list' argument must have no negative elements")
+    ml = to_term(minlength)
+    L = ctx.fresh_int("bincount_len", lo=0)
+    ctx.assume(L.t >= ml, "numpy:bincount length")
+    ctx.assume(forall([t], z3.Implies(z3.And(in_range(t, n), live(t)), xe(t) < L.t)), "numpy:bincount length")
+    w = ctx.fresh_int("bincount_max_at")
+    ctx.assume(z3.Implies(L.t > ml, z3.And(in_range(w.t, n), live(w.t), xe(w.t) == L.t - 1)), "numpy:bincount length")
+
+    def summand(b, t):
+        wt = to_real(we(t)) if we is not None else z3.RealVal(1)
+        return z3.If(z3.And(live(t), xe(t) == b), wt, z3.RealVal(0))
+    out = SArr((L,), lambda b: sigma.total(lambda t: summand(b, t), dim_term(n), "B"), "f" if W is not None else "f")
+    out.meta["summand"] = summand
+    out.meta["n"] = n
+    ctx.trust("numpy:bincount (out[b] = sum of weights of the entries equal to b, length max(minlength, max+1))")
+    return out
+
+
 def average(a, weights=None, axis=None):
     if not anysym(a, weights):
         return _np.average(a, weights=weights, axis=axis)
